@@ -79,7 +79,13 @@ let gen_control r : control * int =
              cp_oldestcts = g_u r 32; cp_newestcts = g_u r 32; cp_oldestactive = g_u r 32 } in
   ({ c_pg12 = (rint r 5 = 0); c_sysid = g_u r 64;
      c_ctlver = (match rint r 4 with 0 -> zi 1201 | 1 -> zi 1300 | 2 -> zi 1100 | _ -> g_u r 32);
-     c_catver = (match rint r 3 with 0 -> zi 202307071 | 1 -> zi 201909212 | _ -> g_u r 32);
+     (* catalog version numbers on both sides of the release values the tool compares with (PG16 202307071, PG15 202209061,
+        PG14 202107181, PG13 202007201, PG12 201909212) and at year boundaries (seeded change C16-10: year test instead of >=) *)
+     c_catver = (match rint r 4 with
+         | 0 -> zi (pick r [| 202307071; 202209061; 202107181; 202007201; 201909212 |])
+         | 1 -> zi (pick r [| 202307071; 202209061; 202107181; 202007201; 201909212 |] + pick r [| -1; 1; -71; 100 |])
+         | 2 -> zi (pick r [| 202300000; 202301011; 202307070; 202299999; 202212311; 202400001; 202200000; 202100000 |])
+         | _ -> g_u r 32);
      c_state = g_state r; c_time = g_time r; c_checkpoint = g_lsn r segsz; c_cp = cp;
      c_unlogged = g_u r 64; c_minrec = g_u r 64; c_minrectli = g_u r 32; c_backupstart = g_u r 64;
      c_backupend = g_u r 64; c_backupendreq = rbool r;
